@@ -700,7 +700,7 @@ impl Component for LinkCc {
             return vec![format!("looptrace {}", sc.render())];
         }
         let style = rng.below(3);
-        let start = *rng.pick(&[0u64, 0, 1, 1000, 5000, 1_700_000_000_000, u64::MAX - 100_000]);
+        let start = *rng.pick(&[0u64, 0, 1, 1000, 5000, 1_700_000_000_000, u64::MAX - 100_000, (1u64 << 32) - 3000, (417u64 << 32) - 2500]);
         let kind = if idx < 8 { idx as u64 } else { rng.below(10) };
         let mut g = G { rng, now: start, ops: Vec::new(), style };
         match kind {
